@@ -389,7 +389,7 @@ class Mix(Scenario):
 
             inside = it.cancel_after is not None and it.cancel_after >= 100
             sub = RecSubscriber(w, side, 'sub' + it.tag, cancel_on_subscribe=(it.cancel_after == -1),
-                                request_on_subscribe=(7 if it.credit == 'onsub' else None),
+                                request_on_subscribe=(7 if it.credit == 'onsub' else ((MAXN, MAXN) if it.credit == 'onsubmax' else None)),
                                 cancel_in_on_next=(it.cancel_after - 100 if inside else None), before_cancel=before_cancel)
             st['sub'] = sub
             n0 = MAXN if it.credit == 'max' else 1
